@@ -99,3 +99,8 @@ CHECKS["C07"] = {"pkg": "ledger", "shards": 14, "timeout_quick": 900, "timeout_t
     "text": "The ledger state machine with view actions: after steps of random histories the per-address unspent index, address count, history records of every output ever created (incl. which block and transaction spent it), confirmed transactions by hash and per address, transaction count, confirmed and predicted balances and block range queries are recomputed from the reference model and compared; a rebuild action erases the index and history progress markers, restarts the node and compares all views again."}
 CHECKS["C03"] = {"pkg": "ledger", "shards": 14, "timeout_quick": 900, "timeout_thorough": 3000, "technique": LT + "; plus property-based testing of UxOut.CoinHours against the exact formula", "note": LN + "; directly crafted blocks whose output-hour sum wraps 2^64 are not generated (documented legacy behaviour for existing blocks), the wrap class is counted if it ever occurs",
     "text": "Ledger state machine with block times up to 2^40 seconds ahead and hour values aimed at the burn boundary: for every transaction of every block a node accepts, the output hours must not exceed the input hours accrued at the previous block's time, evaluated exactly in math/big with the documented legacy exception; injections whose output hours overflow must be rejected; accrued hours must equal initial + floor(coins*dt/3.6e9) and be monotone in time."}
+
+CHECKS["C33"] = {"pkg": "ledger", "shards": 14, "timeout_quick": 900, "timeout_thorough": 3000,
+    "technique": "property-based testing (rapid) of block synchronisation: generated delivery plans (order, duplication, loss, splitting, forgeries) through the real GiveBlocksMessage.process on a recording daemon over real visors, against a sequential reference model and a prefix-of-publisher invariant",
+    "note": LN + "; blocks inside one peer message are ascending; the network is replaced by the verif hook VerifDaemon (records sends, executes blocks on the real visor)",
+    "text": "A publisher chain of 3-10 blocks is delivered to a fresh follower as a generated plan of GiveBlocks messages (gaps, overlaps, duplicates, permuted message order, interleaved forged blocks). After every message the follower must equal the sequential reference model, be a block-for-block prefix of the publisher chain with valid publisher signatures, and emit AnnounceBlocks/GetBlocks for its new head; after an honest peer answers its requests it must hold exactly the longest gap-free prefix of the blocks it was given."}
